@@ -15,9 +15,9 @@ K = 48
 
 def cfg(tier):
     if tier == 'quick':
-        return {'La': 2, 'Lb': 2, 'roles': 'RBW', 'da': 2, 'db': 2, 'struct': True, 'extra': [(1, 'RBX', 2), (3, 'RB', 1)]}
+        return {'La': 2, 'Lb': 2, 'roles': 'RBW', 'da': 2, 'db': 2, 'struct': True, 'extra': [(1, 'RBX', 2), (3, 'RB', 1), (3, 'eg', 2)]}
     return {'La': 2, 'Lb': 2, 'roles': 'RBWX', 'da': 3, 'db': 2, 'struct': False,
-            'extra': [(1, 'RBXW', 3), (3, 'RBW', 2), (2, 'RBW', 2, True), (4, 'RB', 2)]}
+            'extra': [(1, 'RBXW', 3), (3, 'RBW', 2), (2, 'RBW', 2, True), (4, 'RB', 2), (3, 'egmB', 2), (4, 'eg', 2)]}
 
 
 def tasks(tier, seed):
@@ -38,6 +38,13 @@ def pools(tier, seed):
         te = {'L': L, 'layout': 'plain', 'roles': rn, 'depth': d, 'struct': len(ex) > 3 and ex[3], 'part': 0, 'parts': 1}
         A = A + explore.std_pool(te, seed + 3).items
     A = A + [([['plain', '']], build([['plain', '']]))]
+    # operands whose seam lies beyond offset 256
+    R = explore.roles(seed)
+    long_t = 'y' * explore.LONG + 'ab'
+    for hh in ([['plain', long_t], ['apply', R['R'], explore.LONG, explore.LONG + 2, True]],
+               [['plain', long_t], ['apply', R['R'], 0, explore.LONG + 2, True], ['apply', R['B'], explore.LONG + 1, explore.LONG + 2, True]],
+               [['plain', long_t], ['apply', R['B'], explore.LONG + 1, explore.LONG + 2, True], ['apply', R['R'], 0, explore.LONG + 2, True]]):
+        A.append((hh, build(hh)))
     return A, B
 
 
